@@ -15,10 +15,10 @@ NOTE_PARTIAL = ("the theorems in coq/fs/%s.v are about named mechanisms of the l
 PROOF_LEVEL = {
     "C11": "C11m_history_any (ANY fault schedule - any number of armed device-call indices, several inside one call - as long as every fault that fires does so inside a call of the never-writing class: each call is either exactly the fault-free call from the state it starts in, or returns Err with medium and tables unchanged; fs_inv after every call; C11m_retry_any / C11m_retry_find / C11m_retry_iter: the retried lookup / listing returns the C06 answer), C11x_history_model (the same statement over the extended alphabet FsExt.xop, lockstep_xstep for every extended operation; with the observation C11x_drop_swallows_fault: a File dropped while its flush hits the fault answers nothing - impl Drop discards the DeviceError, the handle is gone, the unflushed bytes are lost - documented behaviour of Drop, stated as a theorem) and C11_history_model is a theorem about the layer-B model: in any history run with ONE device fault armed at any device-call index, the calls before the one that hits it are unaffected, and that call returns Err (never Ok / fabricated / Panic / OutOfFuel), keeps lock and handle tables (CloseFile consumes its handle), leaves a crash-sound medium with unique names and every non-targeted file intact, and - for calls that never write - a state of the invariant so that the retry is a fault-free call; every handle can be closed afterwards. Proved per operation (step_fault, 26 operations) from lockstep_step (the armed run agrees with the fault-free run up to the armed device call). Several faults per history and arbitrary calls after a fault are covered at run time only: this check injects a fault at every device-call index of every script and random multi-fault sequences, and judges the implementation with the python oracle (error reported, not wedged, retry answers, no duplicate names, bystanders intact)",
     "C01": "C01x_history_model (the same over the extended alphabet FsExt.xop: iterate_dir_lfn, wrapper drops, change_dir, File::length/offset/is_eof; xspec_run on top of spec_step) and C01_history_model is a theorem about the layer-B model: for any history of API calls (all 26 operations interleaved, any number of files, every outcome) an executable byte-array spec predicts every read/length/offset/eof/seek/flush/close result and ends with the API's view of every file, position by position (writes splice, truncation empties, append starts at the end, one key per write = isolation); step_content proved per operation; D23 (clip at 4 GiB - 1) is encoded in the spec as the crate behaves and recorded as a finding. The run-time oracle replays the byte-array model on the implementation's results",
-    "C02": "C02x_history_model / C02x_flushed_stays_model / C02x_untouched_history_model (extended alphabet; the flush may be XDropFile), C02_drop_is_close (impl Drop for File = a close whose result is discarded: same state, same medium, the flush relation of CloseFile) and C02_history_model / C02_flushed_stays_model / C02_untouched_history_model are theorems about the layer-B model: what a fresh mount of the raw medium shows (disk_view, a function of the raw disk) at the slot of a flushed/closed file is exactly the API's view at the flush - name, attribute, creation time, modification time = rounded clock of the last write, bytes - until a later call modifies that file; untouched files and untouched raw directory slots are unchanged through any history. Recorded findings: D24 (zero creation-date fields re-encoded) and D29 (0xE5 names). The run-time oracle re-reads the implementation's medium with an independent FAT reader",
-    "C10": "C10x_history / C10x_region_history (the same over the extended alphabet FsExt.xop: the crashed media of an extended call are those of its base call, xcrash_disks_base) and C10_history is a theorem about the layer-B model: in any history of API calls, the medium after every prefix of the block-write sequence of every call (read off the device log; writes atomic and ordered) satisfies the crash invariant crash_inv (tree over the raw disk, unique names, clean tails, dot entries, chains sound and pairwise disjoint, sub-directories with initialised clusters; residue = lost chains and one stale size), whatever the free clusters held; step_crash proved for all 26 operations and outcomes. The extracted sound decider crash_inv_fast and the independent python checker both run on the implementation's crashed media. Not covered by a theorem: that the mount call itself succeeds on the crashed medium (region theorem: MBR/boot sector unchanged)",
-    "C09": "C09x_history (the same over the extended alphabet FsExt.xop; a drop of a handle on the file counts as targeting it) and C09_history is a theorem about the layer-B model: a file present on the medium (path, entry, bytes) is present unchanged between calls and on every crashed medium of every later call of any history until a call targets it (op_targets); step_keeps_flushed proved for all 26 operations; with the C02 flush theorem (a successful flush/close puts exactly the API's view on the medium) this is the property for the model. The python oracle replays every prefix of the implementation's write log and re-reads flushed files with an independent reader",
-    "C16": "recorded finding three-fats (C16_three_fats_refuted: a valid volume with BPB_NumFATs >= 3 mounts with no second FAT recorded, update_fat then writes copy 0 only); for the FAT copy the volume record knows (complete for 1 and 2 FATs): C16x_history / C16x_history_flush (the same over the extended alphabet FsExt.xop: a dropped dirty File stores the record like a closed one) and C16_history (mirroring of every FAT copy, truthful-stays-truthful, unknown-stays-unknown, hint unknown or in range - after every call of every history of API calls) and C16_history_flush (the FAT32 information sector after a flush/close of a dirty file holds exactly the in-memory record: the number of free FAT entries when the count was truthful, untouched when unknown) are theorems about the layer-B model; the mount code establishes the hint range (C16_mount_hint_in_range, D40 repaired); no call panics or fails for want of space while a free entry exists whatever record was found at mount (C03_history, PrAlloc/PrCount). Recorded finding: stale-hint-kept",
+    "C02": "C02s_remount_reads_back (after a flush/close/drop, CloseVol and OpenVol again, the new session shows the flushed name, attribute, times, length and bytes at that slot; C02s_open_read: a read-only open + Read returns them), C02x_history_model / C02x_flushed_stays_model / C02x_untouched_history_model (extended alphabet; the flush may be XDropFile), C02_drop_is_close (impl Drop for File = a close whose result is discarded: same state, same medium, the flush relation of CloseFile) and C02_history_model / C02_flushed_stays_model / C02_untouched_history_model are theorems about the layer-B model: what a fresh mount of the raw medium shows (disk_view, a function of the raw disk) at the slot of a flushed/closed file is exactly the API's view at the flush - name, attribute, creation time, modification time = rounded clock of the last write, bytes - until a later call modifies that file; untouched files and untouched raw directory slots are unchanged through any history. Recorded findings: D24 (zero creation-date fields re-encoded) and D29 (0xE5 names). The run-time oracle re-reads the implementation's medium with an independent FAT reader",
+    "C10": "C10s_history / C10s_crashed_medium_mounts (sessions: every crashed medium of every call, unmount and mount included, keeps the crash invariant, MBR, boot sector and signatures, and mounts again), C10x_history / C10x_region_history (the same over the extended alphabet FsExt.xop: the crashed media of an extended call are those of its base call, xcrash_disks_base) and C10_history is a theorem about the layer-B model: in any history of API calls, the medium after every prefix of the block-write sequence of every call (read off the device log; writes atomic and ordered) satisfies the crash invariant crash_inv (tree over the raw disk, unique names, clean tails, dot entries, chains sound and pairwise disjoint, sub-directories with initialised clusters; residue = lost chains and one stale size), whatever the free clusters held; step_crash proved for all 26 operations and outcomes. The extracted sound decider crash_inv_fast and the independent python checker both run on the implementation's crashed media. Not covered by a theorem: that the mount call itself succeeds on the crashed medium (region theorem: MBR/boot sector unchanged)",
+    "C09": "C09s_history (sessions), C09x_history (the same over the extended alphabet FsExt.xop; a drop of a handle on the file counts as targeting it) and C09_history is a theorem about the layer-B model: a file present on the medium (path, entry, bytes) is present unchanged between calls and on every crashed medium of every later call of any history until a call targets it (op_targets); step_keeps_flushed proved for all 26 operations; with the C02 flush theorem (a successful flush/close puts exactly the API's view on the medium) this is the property for the model. The python oracle replays every prefix of the implementation's write log and re-reads flushed files with an independent reader",
+    "C16": "C16s_history / C16s_truthful_across_sessions (sessions: mirroring on the raw medium, hint range, and a truthful count stored by the unmount - C16_close_volume_stores - and read back by the next mount), recorded finding three-fats (C16_three_fats_refuted: a valid volume with BPB_NumFATs >= 3 mounts with no second FAT recorded, update_fat then writes copy 0 only); for the FAT copy the volume record knows (complete for 1 and 2 FATs): C16x_history / C16x_history_flush (the same over the extended alphabet FsExt.xop: a dropped dirty File stores the record like a closed one) and C16_history (mirroring of every FAT copy, truthful-stays-truthful, unknown-stays-unknown, hint unknown or in range - after every call of every history of API calls) and C16_history_flush (the FAT32 information sector after a flush/close of a dirty file holds exactly the in-memory record: the number of free FAT entries when the count was truthful, untouched when unknown) are theorems about the layer-B model; the mount code establishes the hint range (C16_mount_hint_in_range, D40 repaired); no call panics or fails for want of space while a free entry exists whatever record was found at mount (C03_history, PrAlloc/PrCount). Recorded finding: stale-hint-kept",
     "C03": "C15_valid_fs / C15_fs_mount_total (mount_bridge: the file-system model's open_raw_volume equals the mount group's MountModel.mount on every byte medium - C15's theorems transfer to this model), C03s_history (sessions: for a manager with MAX_VOLUMES = 1 - the crate's default - OpenVol / CloseVol / Drop of a Volume are INSIDE the history: any number of mount / use / unmount cycles over the full extended alphabet keeps the session invariant - mounted: fs_inv with a record that is a relabel of the reference geometry, unmounted: a fresh manager over a medium with disk_inv and the information-sector signatures, so that the next mount succeeds -, no call panics, every write lies in a region of the volume; C03s_from_init starts it from init_state on a decider-accepted medium), C03x_history (the same for the extended alphabet FsExt.xop: + iterate_dir_lfn, Drop of the File / Directory wrappers, Directory::change_dir - whose unwrap is proved unreachable -, the expect()ing File::length/offset/is_eof under the guard that the wrapper's handle is open) and C03_history / C03_after_every_call / C03_sound_after_history are theorems about the layer-B model for every history of API calls (all 26 operations, every outcome incl. refusals, DiskFull and NotEnoughSpace half-way failures): the global invariant fs_inv - directory tree over the raw disk, unique names, clean tail after the end marker, dot entries, chains in range / acyclic / end-marked / never through free-reserved-bad entries / pairwise disjoint / long enough for the size, pending chains of open files - holds after every call. Scope stated in the theorems: one mounted volume, no device faults, names outside the recorded class D29, fewer than 2^32 handle generations. The tie to the crate is the trace-exact correspondence; the extracted decider fs_inv_b (sound: fs_inv_b_sound) and the independent python checker both run on the implementation's images",
     "C04": "C04_history is a theorem about the layer-B model for every history of API calls: the complete device-write list lies in the regions of the volume (FAT copies, FAT16 root region, data area, FAT32 information sector; C04_regions_not_outside: never MBR, boot sector, other partition, past the last cluster); C04_mount_layout / C04_open_volume_layout derive the region map from the checks of the mount code; per-call byte frames (slot, FAT entry, high nibble, info-sector fields, data range) are the C04_*_frame theorems. Recorded finding: the partition size is not compared with the BPB total (D38)",
     "C05": "C05_history (after any history of API calls with no file left open, in-use clusters = clusters on the chains of the live tree), C05_used_is_tree_and_pending (with open files: plus their pending chains), C05_delete_frees, C05_capacity (exactly free_entries allocations succeed, then NotEnoughSpace with nothing changed), C05_fill_free_refill for every number of cycles, and mgr_write_spec (Ok / DiskFull with exactly the stored prefix readable / NotEnoughSpace) are theorems about the layer-B model for all inputs",
